@@ -334,9 +334,10 @@ def run_history(case, observe=True, full=False):
                 else:
                     sim.call(sim.rpc_clients.get_engine_client()
                              .resume_workflow, paused[0]['id'])
-                en = sim.enabled()
-                if en:
-                    continue
+                # (a resume may run straight into the next pause command
+                # without queueing anything: look again, bounded by
+                # `resumes`)
+                continue
         if not en and case.get('complete_async_at_end') and sim.W.inflight:
             for aid in sorted(sim.W.inflight):
                 sim.W.inflight.pop(aid, None)
